@@ -32,7 +32,7 @@ pub fn rhs_of(name: &str) -> (Rc<dyn Fn(f64, &[f64]) -> Vec<f64>>, Vec<f64>) {
     }
 }
 pub struct Steps;
-const RHS: [&str; 6] = ["generic1", "generic2", "generic3", "rot2:lin-2+logistic", "rot3:osc2.5+gauss", "cgeneric2"];
+const RHS: [&str; 7] = ["generic1", "generic2", "generic3", "rot2:lin-2+logistic", "rot3:osc2.5+gauss", "cgeneric2", "cphase2"];
 fn cgeneric(t: f64, z: &[C64]) -> Vec<C64> {
     // complex, two components with different phases, smooth, non-autonomous, bounded growth
     let i = C64::new(0.0, 1.0);
@@ -40,6 +40,12 @@ fn cgeneric(t: f64, z: &[C64]) -> Vec<C64> {
         C64::new(-0.3, 0.8) * z[0] + z[1] * t.sin() + C64::new(0.2, 0.1) * (z[0].re + z[1].im).sin(),
         C64::new(0.5, -0.3) * z[0].im.cos() - z[1] * (0.5 + 0.3 * t.cos()) + i * z[0] * 0.1,
     ]
+}
+fn cphase(t: f64, z: &[C64]) -> Vec<C64> {
+    // the second component is i times the first: the error components have a fixed phase difference of 90 degrees
+    // (an error norm that forgets a conjugate, sum z^2 instead of sum |z|^2, cancels completely on this system)
+    let g = C64::new((2.0 * t).cos(), (2.0 * t).sin()) * (1.0 + 0.2 * z[0].re.sin());
+    vec![g, C64::new(0.0, 1.0) * g]
 }
 fn flatten(z: &[C64]) -> Vec<f64> {
     z.iter().flat_map(|c| [c.re, c.im]).collect()
@@ -55,10 +61,11 @@ pub fn run_and_judge(o: &mut Outcome, p: &StepPt, budget: u64) -> Option<refstep
     let adams = matches!(p.solver, Solver::Adams5 | Solver::Adams3);
     let lim = Limits { max_calls: budget, max_items: 2_000_000, extra_next: 0 };
     // complex right-hand side: solved in Complex<f64>, judged as the equivalent real system of twice the dimension
-    let (f, y0, out): (Rc<dyn Fn(f64, &[f64]) -> Vec<f64>>, Vec<f64>, RunOut<f64>) = if p.rhs == "cgeneric2" {
+    let (f, y0, out): (Rc<dyn Fn(f64, &[f64]) -> Vec<f64>>, Vec<f64>, RunOut<f64>) = if p.rhs == "cgeneric2" || p.rhs == "cphase2" {
+        let cf: fn(f64, &[C64]) -> Vec<C64> = if p.rhs == "cphase2" { cphase } else { cgeneric };
         let y0c = vec![C64::new(0.7, -0.4), C64::new(0.2, 0.5)];
         let rhs: Rhs<C64> = Rc::new(move |t, z| {
-            let v = cgeneric(t, z);
+            let v = cf(t, z);
             if adams {
                 l2.borrow_mut().record(t, &flatten(z), &flatten(&v));
             }
@@ -66,7 +73,7 @@ pub fn run_and_judge(o: &mut Outcome, p: &StepPt, budget: u64) -> Option<refstep
         });
         let oc = solve::<C64>(p.solver, if p.dynamic { DimMode::Dynamic } else { DimMode::Static }, &cfg, &y0c, rhs, &lim);
         let out = RunOut { build: oc.build, ctor: oc.ctor, solve: oc.solve, items: oc.items.iter().map(|(t, z)| (*t, flatten(z))).collect(), end: oc.end, after: oc.after, calls: oc.calls, panic: oc.panic };
-        (Rc::new(|t, y| flatten(&cgeneric(t, &unflatten(y)))), flatten(&y0c), out)
+        (Rc::new(move |t, y| flatten(&cf(t, &unflatten(y)))), flatten(&y0c), out)
     } else {
         let (f, y0) = rhs_of(&p.rhs);
         let f2 = f.clone();
@@ -131,7 +138,7 @@ impl Check for Steps {
         "step-conformance"
     }
     fn rule(&self) -> String {
-        "7 solvers x {3 generic non-linear non-autonomous right-hand sides (dimension 1,2,3), 2 catalogue systems, 1 complex 2-component system solved in Complex<f64> and judged as its real twin} x tolerance x maximum step x interval length (one shorter than a start-up, one long), static and dynamic dimension; every consecutive pair of every path is one judged transition of the reference stepper (nondeterministic for Adams: hypothesis set over the hidden derivative history); signature = run-length-compressed class sequence (R embedded RK, S RK4 start-up, A Adams, B BDF, a ambiguous, E Euler)".into()
+        "7 solvers x {3 generic non-linear non-autonomous right-hand sides (dimension 1,2,3), 2 catalogue systems, 2 complex 2-component systems (one with components a quarter turn apart) solved in Complex<f64> and judged as its real twin} x tolerance x maximum step x interval length (one shorter than a start-up, one long), static and dynamic dimension; every consecutive pair of every path is one judged transition of the reference stepper (nondeterministic for Adams: hypothesis set over the hidden derivative history); signature = run-length-compressed class sequence (R embedded RK, S RK4 start-up, A Adams, B BDF, a ambiguous, E Euler)".into()
     }
     fn axes(&self, t: Tier) -> Value {
         json!({"rhs": RHS, "tol": t.pick(vec![1e-3, 1e-6], vec![1e-3, 1e-5, 1e-7, 1e-9]), "dtmax": [0.2, 0.05], "len": t.pick(vec![0.33, 2.7], vec![0.33, 2.7, 9.1]), "t0": t.pick(vec![0.2], vec![0.2, -3.1, 40.0]), "dtmin": 1e-9})
